@@ -143,3 +143,20 @@ def resistance_exact(name, z):
 def resistance_trapezoid(z, Kz):
     dz = np.diff(z)
     return np.concatenate([[0.0], np.cumsum(dz * (0.5 / Kz[:-1] + 0.5 / Kz[1:]))])
+
+
+def drop_cutoff(a, nlx, nly):
+    """remove every horizontal Fourier component at or beyond the retained-mode cut-off
+    (|index| >= nl/2 for an even mode count nl; this is the grid's Nyquist component when
+    all modes are kept).  What remains is the symmetric part of the retained spectrum."""
+    a = np.asarray(a, dtype=float)
+    ny, nx = a.shape[-2:]
+    nlx, nly = min(nlx, nx), min(nly, ny)
+    f = np.fft.fft2(a, axes=(-2, -1))
+    ix = np.abs(np.fft.fftfreq(nx, d=1.0 / nx))
+    iy = np.abs(np.fft.fftfreq(ny, d=1.0 / ny))
+    if nlx % 2 == 0:
+        f[..., :, ix >= nlx / 2 - 1e-9] = 0
+    if nly % 2 == 0:
+        f[..., iy >= nly / 2 - 1e-9, :] = 0
+    return np.fft.ifft2(f, axes=(-2, -1)).real
